@@ -3,7 +3,11 @@
 package s3db
 
 import (
+	"time"
+
+	"github.com/aws/aws-sdk-go/service/s3"
 	"github.com/jrhy/mast"
+	"github.com/jrhy/mast/persist/s3test"
 	"github.com/jrhy/s3db/kv"
 	"google.golang.org/protobuf/proto"
 )
@@ -34,4 +38,35 @@ func verifNodeCache(c mast.NodeCache) mast.NodeCache {
 		return c
 	}
 	return VerifNodeCache(c)
+}
+
+// VerifNow, when set by the simulator, is the wall clock of the process that
+// owns the given endpoint (per-client clock skew).
+var VerifNow func(endpoint string) time.Time
+
+func verifNow(endpoint string) time.Time {
+	if VerifNow == nil {
+		return time.Now()
+	}
+	return VerifNow(endpoint)
+}
+
+// VerifInMemoryS3, when set by the simulator, builds the process-wide
+// in-memory bucket (tables created without s3_bucket) without sockets.
+var VerifInMemoryS3 func() (*s3.S3, string, func())
+
+func verifInMemoryS3() (*s3.S3, string, func()) {
+	if VerifInMemoryS3 == nil {
+		return s3test.Client()
+	}
+	return VerifInMemoryS3()
+}
+
+// VerifResetInMemoryS3 forgets the process-wide in-memory bucket, so that
+// the next table without s3_bucket creates it again (one simulated process
+// per run).
+func VerifResetInMemoryS3() {
+	inMemoryS3Lock.Lock()
+	defer inMemoryS3Lock.Unlock()
+	inMemoryS3, inMemoryBucket = nil, ""
 }
